@@ -235,7 +235,7 @@ list containing the vocabulary, `in_features` is not strict, everything else has
 def singleOwn (g : Group) (vocab : List Str) : Bool :=
   match requiredKeys g with
   | [K] => g.props.all fun p =>
-      if p.key == K then p.strict && p.validator.isEmpty && vocab.all (p.values.contains ·)
+      if p.key == K then p.validator.isEmpty && (!p.strict || vocab.all (p.values.contains ·))
       else if p.key == inFeaturesKey then !p.strict && p.validator.isEmpty
       else p.hasDefault
   | _ => false
@@ -255,8 +255,8 @@ theorem own_single (g : Group) (vocab : List Str) (h : singleOwn g vocab = true)
     intro p hp
     have hp' := h p hp
     by_cases hk : (p.key == K) = true
-    · simp only [hk, if_true, Bool.and_eq_true, List.all_eq_true] at hp'
-      obtain ⟨⟨hst, hvl⟩, hvals⟩ := hp'
+    · simp only [hk, if_true, Bool.and_eq_true, Bool.or_eq_true, Bool.not_eq_true', List.all_eq_true] at hp'
+      obtain ⟨hvl, hvals⟩ := hp'
       have hkey : p.key = K := by simpa using hk
       have hget : (levelOpts g [.s t] v).get p.key = .str t := by rw [hkey]; exact levelOpts_single_get g K hK t v
       have hvn : p.validator = [] := by cases hx : p.validator <;> simp_all
@@ -266,8 +266,10 @@ theorem own_single (g : Group) (vocab : List Str) (h : singleOwn g vocab = true)
       · simp [hvl]
       · rw [hget, hvn]
         have : vfOf g [] = none := validatorFn_nil _
-        have htv : t ∈ p.values := by simpa using hvals t (by simpa using ht)
-        simp [strictOk, hst, this, elemsOf, convElem, htv]
+        rcases hvals with hns | hvals
+        · simp [strictOk, hns]
+        · have htv : t ∈ p.values := by simpa using hvals t (by simpa using ht)
+          simp [strictOk, this, elemsOf, convElem, htv]
       · rw [hget]; simp [elemsOf]
     · simp only [hk, Bool.false_eq_true, if_false] at hp'
       by_cases hi : (p.key == inFeaturesKey) = true
@@ -377,5 +379,276 @@ theorem own_window (g : Group) (fs us : List Str) (h : windowOwn g fs us = true)
                 (by simpa using hi)
             rw [propHere_absent _ _ _ habs, hp']
   · cases h
+
+end Chain
+
+namespace Chain
+
+/-! ### inputs and parameters of an option-configured level -/
+
+theorem isChained_false (ph : Str) (h : hasInfix sep2 ph = false) : isChained ph = false := by
+  unfold isChained; rw [chainSep_eq]; exact h
+
+theorem inputs_level_mixin (g : Group) (hk : g.inputImpl = mixinName) (hsep : g.inSep = [inputSep]) (ps : List Param) (v f : PV)
+    (hv : inValFeat v = some f) (ph : Str) (hph : hasInfix sep2 ph = false) (hcount : validateCount g 1 = .ok ()) :
+    inputFeatures g (levelOpts g ps v) ph = .ok ⟨[f], []⟩ := by
+  unfold inputFeatures inputFeaturesMixin
+  simp only [hk, beq_self_eq_true, if_true, hsep]
+  rw [parseFeatureName_none chainSep g.toks ph (matchPattern_none g.toks ph hph),
+    getInFeatures_inVal _ v f (levelOpts_get_in g ps v) hv]
+  simp only [bind, Except.bind, pure, Except.pure, List.length_singleton, hcount]
+
+theorem inputs_level_tw (g : Group) (hk : g.inputImpl = twName) (href : referenceTimeKey ∉ requiredKeys g) (ps : List Param) (v f : PV)
+    (hv : inValFeat v = some f) (ph : Str) (hph : hasInfix sep2 ph = false) :
+    ∃ ex, inputFeatures g (levelOpts g ps v) ph = .ok ⟨[f], ex⟩ := by
+  have hne1 : (twName == mixinName) = false := by decide
+  have hself : (twName == "TimeWindowFeatureGroup".toList) = true := by decide
+  have hrt : referenceTimeColumn (levelOpts g ps v) = .ok referenceTimeKey := by
+    unfold referenceTimeColumn
+    rw [levelOpts_get_absent g ps v referenceTimeKey href (by decide)]
+    rfl
+  unfold inputFeatures inputFeaturesTimeWindow
+  simp only [hk, hne1, hself, Bool.false_eq_true, if_false, if_true]
+  rw [parseFeatureName_none chainSep g.toks ph (matchPattern_none g.toks ph hph),
+    getInFeatures_inVal _ v f (levelOpts_get_in g ps v) hv]
+  simp only [bind, Except.bind, pure, Except.pure, List.length_singleton, hrt]
+  exact ⟨_, rfl⟩
+
+theorem extractParams_window_eq (o : Opts) (name : Str) : extractParams gTimeWindowFeatureGroup o name =
+    (match parseTimeWindowPrefix gTimeWindowFeatureGroup name with
+     | .ok (f, n, u) => .ok [.s f, .n n, .s u]
+     | .error _ => windowParamsFromOptions o) := by rfl
+
+theorem parseTimeWindowPrefix_noSep (g : Group) (ph : Str) (h : hasInfix sep2 ph = false) :
+    ∃ e, parseTimeWindowPrefix g ph = .error e := by
+  unfold parseTimeWindowPrefix
+  rw [rsplitOnce_none sep2 ph h]
+  exact ⟨_, rfl⟩
+
+theorem optStrParam_str (o : Opts) (key tag : String) (t : Str) (h : o.get key.toList = .str t) :
+    optStrParam o key tag = .ok (.s t) := by
+  simp [optStrParam, h, pyStr]
+
+/-- the parameters `calculate_feature` extracts from an option-configured level are the ones given -/
+theorem params_level (op : Op) (hok : op.ok = true) (hnt : op.gid ≠ 10) (hng : op.gid ≠ 5) (g : Group) (hg : groupAt op.gid = some g)
+    (v : PV) (ph : Str) (hph : hasInfix sep2 ph = false) :
+    extractParams g (levelOpts g op.params v) ph = .ok op.params := by
+  obtain ⟨gid, ps⟩ := op
+  have hnone : ∀ g' : Group, parseFeatureName chainSep [g'.toks] ph = .ok none :=
+    fun g' => parseFeatureName_none chainSep g'.toks ph (matchPattern_none g'.toks ph hph)
+  have hnc := isChained_false ph hph
+  unfold Op.ok at hok
+  match gid, hok, hg with
+  | 0, hok, hg =>
+    have hg' : groupAt 0 = some gAggregatedFeatureGroup := by decide
+    have : g = gAggregatedFeatureGroup := by
+      have h2 : groupAt 0 = some g := hg
+      rw [hg'] at h2; cases h2; rfl
+    subst this
+    have h' := ok_params 0 gAggregatedFeatureGroup hg' ps hok
+    rw [opParamsOk_aggr] at h'
+    obtain ⟨t, rfl, _⟩ := single_of_match h'
+    have hget := levelOpts_single_get gAggregatedFeatureGroup "aggregation_type".toList (by rfl) t v
+    show extractParams gAggregatedFeatureGroup (levelOpts gAggregatedFeatureGroup [.s t] v) ph = .ok [.s t]
+    rw [extractParams_aggr, hnone]
+    simp only [bind, Except.bind, optStrParam_str _ _ _ t hget, pure, Except.pure]
+  | 6, hok, hg =>
+    have hg' : groupAt 6 = some gMissingValueFeatureGroup := by decide
+    have : g = gMissingValueFeatureGroup := by
+      have h2 : groupAt 6 = some g := hg
+      rw [hg'] at h2; cases h2; rfl
+    subst this
+    have h' := ok_params 6 gMissingValueFeatureGroup hg' ps hok
+    rw [opParamsOk_miss] at h'
+    obtain ⟨t, rfl, ht⟩ := single_of_match h'
+    have hget := levelOpts_single_get gMissingValueFeatureGroup "imputation_method".toList (by rfl) t v
+    show extractParams gMissingValueFeatureGroup (levelOpts gMissingValueFeatureGroup [.s t] v) ph = .ok [.s t]
+    rw [extractParams_miss, hnc]
+    simp only [Bool.false_eq_true, if_false, hget, ht, if_true]
+    rfl
+  | 7, hok, hg =>
+    have hg' : groupAt 7 = some gNodeCentralityFeatureGroup := by decide
+    have : g = gNodeCentralityFeatureGroup := by
+      have h2 : groupAt 7 = some g := hg
+      rw [hg'] at h2; cases h2; rfl
+    subst this
+    have h' := ok_params 7 gNodeCentralityFeatureGroup hg' ps hok
+    rw [opParamsOk_cent] at h'
+    obtain ⟨t, rfl, _⟩ := single_of_match h'
+    have hget := levelOpts_single_get gNodeCentralityFeatureGroup "centrality_type".toList (by rfl) t v
+    show extractParams gNodeCentralityFeatureGroup (levelOpts gNodeCentralityFeatureGroup [.s t] v) ph = .ok [.s t]
+    rw [extractParams_cent, hnone]
+    simp only [bind, Except.bind, optStrParam_str _ _ _ t hget, pure, Except.pure]
+  | 8, hok, hg =>
+    have hg' : groupAt 8 = some gScalingFeatureGroup := by decide
+    have : g = gScalingFeatureGroup := by
+      have h2 : groupAt 8 = some g := hg
+      rw [hg'] at h2; cases h2; rfl
+    subst this
+    have h' := ok_params 8 gScalingFeatureGroup hg' ps hok
+    rw [opParamsOk_scal] at h'
+    obtain ⟨t, rfl, ht⟩ := single_of_match h'
+    have hget := levelOpts_single_get gScalingFeatureGroup "scaler_type".toList (by rfl) t v
+    show extractParams gScalingFeatureGroup (levelOpts gScalingFeatureGroup [.s t] v) ph = .ok [.s t]
+    rw [extractParams_scal]
+    unfold typeFromNameOrOption
+    rw [hnc]
+    simp only [Bool.false_eq_true, if_false, hget, ht, if_true]
+    rfl
+  | 11, hok, hg =>
+    have hg' : groupAt 11 = some gTimeWindowFeatureGroup := by decide
+    have : g = gTimeWindowFeatureGroup := by
+      have h2 : groupAt 11 = some g := hg
+      rw [hg'] at h2; cases h2; rfl
+    subst this
+    have h' := ok_params 11 gTimeWindowFeatureGroup hg' ps hok
+    rw [opParamsOk_window] at h'
+    obtain ⟨f, n, u, rfl, _⟩ := triple_of_match h'
+    obtain ⟨e, he⟩ := parseTimeWindowPrefix_noSep gTimeWindowFeatureGroup ph hph
+    have gf : (levelOpts gTimeWindowFeatureGroup [.s f, .n n, .s u] v).get "window_function".toList = .str f := by rfl
+    have gn : (levelOpts gTimeWindowFeatureGroup [.s f, .n n, .s u] v).get "window_size".toList = .int n := by rfl
+    have gu : (levelOpts gTimeWindowFeatureGroup [.s f, .n n, .s u] v).get "time_unit".toList = .str u := by rfl
+    show extractParams gTimeWindowFeatureGroup (levelOpts gTimeWindowFeatureGroup [.s f, .n n, .s u] v) ph = .ok [.s f, .n n, .s u]
+    rw [extractParams_window_eq, he]
+    simp only [windowParamsFromOptions, gf, gn, gu]
+  | 1, hok, _ => exact absurd hok (ok_unmodelled 1 gClusteringFeatureGroup (by decide) (by decide) ps)
+  | 2, hok, _ => exact absurd hok (ok_unmodelled 2 gDimensionalityReductionFeatureGroup (by decide) (by decide) ps)
+  | 3, hok, _ => exact absurd hok (ok_unmodelled 3 gEncodingFeatureGroup (by decide) (by decide) ps)
+  | 4, hok, _ => exact absurd hok (ok_unmodelled 4 gForecastingFeatureGroup (by decide) (by decide) ps)
+  | 9, hok, _ => exact absurd hok (ok_unmodelled 9 gSklearnPipelineFeatureGroup (by decide) (by decide) ps)
+  | 5, _, _ => exact absurd rfl hng
+  | 10, _, _ => exact absurd rfl hnt
+  | n + 12, hok, _ => simp [groupAt_ge n] at hok
+
+end Chain
+
+namespace Chain
+
+theorem own_aggr : singleOwn gAggregatedFeatureGroup (vocabOf gAggregatedFeatureGroup "AGGREGATION_TYPES") = true := by decide
+theorem own_miss : singleOwn gMissingValueFeatureGroup (vocabOf gMissingValueFeatureGroup "IMPUTATION_METHODS") = true := by decide
+theorem own_cent : singleOwn gNodeCentralityFeatureGroup (vocabOf gNodeCentralityFeatureGroup "CENTRALITY_TYPES") = true := by decide
+theorem own_scal : singleOwn gScalingFeatureGroup (vocabOf gScalingFeatureGroup "SUPPORTED_SCALERS") = true := by decide
+theorem own_win : windowOwn gTimeWindowFeatureGroup (vocabOf gTimeWindowFeatureGroup "WINDOW_FUNCTIONS")
+    (vocabOf gTimeWindowFeatureGroup "TIME_UNITS") = true := by decide
+
+/-- the operation's own group validates the option dictionary of the level -/
+theorem own_level (op : Op) (hok : op.ok = true) (hnt : op.gid ≠ 10) (hng : op.gid ≠ 5) (g : Group) (hg : groupAt op.gid = some g)
+    (v f : PV) (hv : inValFeat v = some f) :
+    ∀ p ∈ g.props, propHere (vfOf g) p (levelOpts g op.params v) = .ok (some true) := by
+  obtain ⟨gid, ps⟩ := op
+  unfold Op.ok at hok
+  match gid, hok, hg with
+  | 0, hok, hg =>
+    have hg' : groupAt 0 = some gAggregatedFeatureGroup := by decide
+    have : g = gAggregatedFeatureGroup := by
+      have h2 : groupAt 0 = some g := hg
+      rw [hg'] at h2; cases h2; rfl
+    subst this
+    have h' := ok_params 0 gAggregatedFeatureGroup hg' ps hok
+    rw [opParamsOk_aggr] at h'
+    obtain ⟨t, rfl, ht⟩ := single_of_match h'
+    exact own_single _ _ own_aggr t ht v f hv
+  | 6, hok, hg =>
+    have hg' : groupAt 6 = some gMissingValueFeatureGroup := by decide
+    have : g = gMissingValueFeatureGroup := by
+      have h2 : groupAt 6 = some g := hg
+      rw [hg'] at h2; cases h2; rfl
+    subst this
+    have h' := ok_params 6 gMissingValueFeatureGroup hg' ps hok
+    rw [opParamsOk_miss] at h'
+    obtain ⟨t, rfl, ht⟩ := single_of_match h'
+    exact own_single _ _ own_miss t ht v f hv
+  | 7, hok, hg =>
+    have hg' : groupAt 7 = some gNodeCentralityFeatureGroup := by decide
+    have : g = gNodeCentralityFeatureGroup := by
+      have h2 : groupAt 7 = some g := hg
+      rw [hg'] at h2; cases h2; rfl
+    subst this
+    have h' := ok_params 7 gNodeCentralityFeatureGroup hg' ps hok
+    rw [opParamsOk_cent] at h'
+    obtain ⟨t, rfl, ht⟩ := single_of_match h'
+    exact own_single _ _ own_cent t ht v f hv
+  | 8, hok, hg =>
+    have hg' : groupAt 8 = some gScalingFeatureGroup := by decide
+    have : g = gScalingFeatureGroup := by
+      have h2 : groupAt 8 = some g := hg
+      rw [hg'] at h2; cases h2; rfl
+    subst this
+    have h' := ok_params 8 gScalingFeatureGroup hg' ps hok
+    rw [opParamsOk_scal] at h'
+    obtain ⟨t, rfl, ht⟩ := single_of_match h'
+    exact own_single _ _ own_scal t ht v f hv
+  | 11, hok, hg =>
+    have hg' : groupAt 11 = some gTimeWindowFeatureGroup := by decide
+    have : g = gTimeWindowFeatureGroup := by
+      have h2 : groupAt 11 = some g := hg
+      rw [hg'] at h2; cases h2; rfl
+    subst this
+    have h' := ok_params 11 gTimeWindowFeatureGroup hg' ps hok
+    rw [opParamsOk_window] at h'
+    obtain ⟨f', n, u, rfl, hc⟩ := triple_of_match h'
+    simp only [Bool.and_eq_true, decide_eq_true_eq] at hc
+    exact own_window _ _ _ own_win f' u n hc.1.2 hc.1.1 hc.2 v f hv
+  | 1, hok, _ => exact absurd hok (ok_unmodelled 1 gClusteringFeatureGroup (by decide) (by decide) ps)
+  | 2, hok, _ => exact absurd hok (ok_unmodelled 2 gDimensionalityReductionFeatureGroup (by decide) (by decide) ps)
+  | 3, hok, _ => exact absurd hok (ok_unmodelled 3 gEncodingFeatureGroup (by decide) (by decide) ps)
+  | 4, hok, _ => exact absurd hok (ok_unmodelled 4 gForecastingFeatureGroup (by decide) (by decide) ps)
+  | 9, hok, _ => exact absurd hok (ok_unmodelled 9 gSklearnPipelineFeatureGroup (by decide) (by decide) ps)
+  | 5, _, _ => exact absurd rfl hng
+  | 10, _, _ => exact absurd rfl hnt
+  | n + 12, hok, _ => simp [groupAt_ge n] at hok
+
+/-- time-window style groups do not use `reference_time` as a required key -/
+def refTimeOk : Bool := modelledGroups.all fun g => g.inputImpl != twName || !(requiredKeys g).contains referenceTimeKey
+theorem refTimeOk_true : refTimeOk = true := by decide
+
+/-- **one option-configured level** resolves to the operation's group, its parameters and the denoted input -/
+theorem resolveStep_level (op : Op) (hok : op.ok = true) (hnt : op.gid ≠ 10) (hng : op.gid ≠ 5) (har : op.arityOk 1 = true)
+    (v f : PV) (hv : inValFeat v = some f) (ph : Str) (hph : hasInfix sep2 ph = false) :
+    ∃ g ex, groupAt op.gid = some g ∧
+      resolveStep ph (levelOpts g op.params v) = .ok (some ⟨op.gid, op.params, ⟨[f], ex⟩⟩) := by
+  obtain ⟨g, hg, hmod, _⟩ := sufFacts_of_ok op hok
+  have hgm : g ∈ modelledGroups := mem_modelledGroups (groupAt_mem hg) hmod
+  obtain ⟨hgood, _, _⟩ := inVal_good hv
+  have hmg : matchingGroups ph (levelOpts g op.params v) = .ok [op.gid] := by
+    rw [matchingGroups_eq _ _ (fun g' => g'.name == g.name)]
+    · have hi := indexOk_true
+      simp only [indexOk, List.all_eq_true, List.mem_range] at hi
+      have := hi op.gid (groupAt_lt hg)
+      simp only [hg, hmod, Bool.not_true, Bool.false_or, beq_iff_eq] at this
+      rw [this]
+    · intro g' hg'mem hg'mod
+      by_cases hsame : g' = g
+      · subst hsame
+        have : (g'.name == g'.name) = true := by simp
+        rw [this, matchCriteria_no_pattern g' hmod ph _ (matchPattern_none g'.toks ph hph),
+          validateProps_all_true _ _ _ (own_level op hok hnt hng g' hg v f hv)]
+      · have hne := namesUnique g' g hg'mem (groupAt_mem hg) hsame
+        have hne' : (g.name == g'.name) = false := by
+          cases h : g.name == g'.name with
+          | false => rfl
+          | true =>
+            have e1 : g.name = g'.name := by simpa using h
+            have : (g'.name == g.name) = true := by simp [e1]
+            rw [this] at hne; cases hne
+        rw [hne]
+        exact other_group_no_match g g' hgm (mem_modelledGroups hg'mem hg'mod) hne' op.params v hgood ph hph
+  have hin : ∃ ex, inputFeatures g (levelOpts g op.params v) ph = .ok ⟨[f], ex⟩ := by
+    rcases kinds hgm with ⟨hk, hsep⟩ | ⟨hk, _, _⟩ | ⟨_, hmin, _⟩
+    · exact ⟨[], inputs_level_mixin g hk hsep op.params v f hv ph hph (validateCount_of_arity g 1 (arityOk_elim hg har))⟩
+    · have hr := refTimeOk_true
+      simp only [refTimeOk, List.all_eq_true] at hr
+      have := hr g hgm
+      simp only [hk, bne_self_eq_false, Bool.false_or, Bool.not_eq_true'] at this
+      have href : referenceTimeKey ∉ requiredKeys g := by
+        intro hmem
+        have : (requiredKeys g).contains referenceTimeKey = true := by simpa using hmem
+        simp_all
+      exact inputs_level_tw g hk href op.params v f hv ph hph
+    · have := arityOk_elim hg har
+      simp [hmin] at this
+  obtain ⟨ex, hin⟩ := hin
+  refine ⟨g, ex, hg, ?_⟩
+  simp only [resolveStep, hmg, bind, Except.bind, hg, hin, params_level op hok hnt hng g hg v ph hph, pure, Except.pure]
 
 end Chain
